@@ -18,7 +18,7 @@ import (
 //   Struct ([]Value)
 //   Array  (*ArrayVal)
 //   Tuple  ([]Value)
-//   Chan   (nil channel only)
+//   *ChanVal (conc.go)
 //   *MapVal
 //   nil                  (zero func / untyped nil placeholder)
 type Value interface{}
@@ -62,7 +62,6 @@ func (a *ArrayVal) at(i int) Value {
 	return a.elems[i]
 }
 
-type Chan struct{}
 
 type MapVal struct {
 	m map[interface{}]Value
@@ -203,7 +202,7 @@ func (ex *Exec) zeroValue(t types.Type) Value {
 	case *types.Signature:
 		return (*Closure)(nil)
 	case *types.Chan:
-		return Chan{}
+		return (*ChanVal)(nil)
 	case *types.Map:
 		return (*MapVal)(nil)
 	case *types.Struct:
